@@ -45,6 +45,21 @@ def dnf_size(f):
     return n
 
 
+def dnf_group_lengths(f):
+    """Lengths of the and-groups of the (non-deduplicated) disjunctive normal form."""
+    if isinstance(f, str):
+        return [1]
+    parts = [dnf_group_lengths(a) for a in f["args"]]
+    if f["op"] == "or":
+        return [x for p in parts for x in p]
+    out = [0]
+    for p in parts:
+        out = [a + b for a in out for b in p]
+        if len(out) > 5000:
+            return out
+    return out
+
+
 def leaves_of(f):
     if isinstance(f, str):
         return [f]
@@ -112,6 +127,12 @@ class C07(InterpProp):
         leaves = LEAVES[:n]
         form = d.choice(["match", "await", "when"], "form")
         sc = {"form": form, "formula": gen_formula(d, leaves, 3, "f")}
+        # bound the size of the normal form (and-groups x literals): beyond it every execution takes seconds
+        for attempt in range(1, 12):
+            gl = dnf_group_lengths(sc["formula"])
+            if len(gl) <= 12 and sum(gl) <= 40:
+                break
+            sc["formula"] = gen_formula(d, leaves, 3 if attempt < 4 else 2, ("f", attempt))
         if form == "when":
             k = max(1, n // 2)
             # a flow occurs at most once in a when statement (C07: formulas over distinct flows)
@@ -161,6 +182,7 @@ class C07(InterpProp):
         I.install_interp_seams(ctx)
         seams.reset_run_state(ctx)
         try:
+            I.COUNTER.total = 0
             itp = I.Interp(program)
             t = {"now": 0.0}
             ctx.set_clock(lambda: t["now"])
@@ -177,6 +199,7 @@ class C07(InterpProp):
                 out = itp.deliver(ev)
                 marks.append([o["type"] for o in out if o["type"] in ("Done", "Done2")])
             bad = I.check_quiescence(itp.state)
+            self.last_cost = I.COUNTER.total * max(1, len(itp.state.flow_states))
             return marks, tie["n"], bad
         finally:
             I.uninstall_interp_seams()
@@ -197,7 +220,18 @@ class C07(InterpProp):
         f2 = sc.get("formula2")
         mixed = _has_both(f1)
         out.evaluations = 0
-        for oi, order in enumerate(orders):
+        self.last_cost = 0
+        oi = -1
+        while oi + 1 < len(orders):
+            oi += 1
+            order = orders[oi]
+            if oi == 1 and self.last_cost * len(orders) > 400000 and len(orders) > 8:
+                # deterministic cost bound (internal events x live flows of the first order): a huge normal form
+                # makes every execution slow - keep a seeded handful of orders instead of all of them
+                orders = orders[:1] + Draws(sc["noise_seed"]).sample(orders[1:], 7, "fewer")
+                out.probes.pop("exhaustive_orders", None)
+                out.probe("orders_truncated_by_cost")
+                order = orders[oi]
             dl = sc.get("explicit_deliveries") or self.deliveries_for(sc, order, oi)
             try:
                 marks, nties, bad = self.run_order(sc, dl, program)
